@@ -15,6 +15,7 @@ inductive Ev where
 structure Info where
   maps : List (List (String × Option Nat))     -- desired maps; `none` = nil configuration
   ff   : List String
+  fo   : List String := []     -- ids whose factory fails once (the harness delivers every map twice: the retry succeeds)
   nr   : List String
   hung : Bool
   live : Nat
